@@ -377,13 +377,31 @@ def run(ctx):
     numpy_loop(ctx, f2, bounded_expected=False)
     pivot_pairing(ctx, f2)
     jax_routine(ctx)
-    # call site: symmetrised ERI tensor, vector count = number of Cholesky vectors in use
+    # call site: symmetrised ERI tensor reshaped to a square (n^2 x n^2) matrix, n as the orbital count, as many
+    # vectors as the Hamiltonian carries -- decided on the value graph of the caller
     fi = p.func("sampling.sampler.propagate_phaseless_ad_1")
-    ok = False
-    for nd in ast.walk(fi.node):
-        if isinstance(nd, ast.Call) and (dotted(nd.func) or "").endswith("modified_cholesky") and len(nd.args) == 3:
-            a = [ast.unparse(x).replace(" ", "") for x in nd.args]
-            ok = a[0].endswith(".reshape(norb**2,norb**2)") and a[1] == "norb" and a[2].endswith(".shape[0]")
+    ev = Evaluator(p)
+    ev.eval_function(fi)
+    calls = [e.data for e in ev.events if e.kind == "call" and (func_name(e.data) or "").endswith("linalg_utils.modified_cholesky")]
+    ok, why = False, f"{len(calls)} calls of linalg_utils.modified_cholesky"
+    if len(calls) == 1:
+        _, pos, _ = call_parts(calls[0])
+        if len(pos) == 3:
+            mat, n, cnt = strip_wrappers(pos[0]), strip_wrappers(pos[1]), strip_wrappers(pos[2])
+            mm = mat.args[0] if mat.op == "call" and mat.args[0].op == "attr" and mat.args[0].args[1] == "reshape" else None
+            shp = call_parts(mat)[1] if mm is not None else []
+
+            def is_sq(t):
+                t = strip_wrappers(t)
+                m1, m2 = m_binop(t, "**"), m_binop(t, "*")
+                return (m1 is not None and strip_wrappers(m1[0]) is n and is_const(m1[1], 2)) or \
+                    (m2 is not None and strip_wrappers(m2[0]) is n and strip_wrappers(m2[1]) is n)
+
+            square = len(shp) == 2 and is_sq(shp[0]) and is_sq(shp[1])
+            count_ok = cnt.op == "getitem" and is_const(cnt.args[1], 0) and cnt.args[0].op == "attr" and \
+                cnt.args[0].args[1] == "shape" and strip_wrappers(cnt.args[0].args[0]).op == "getitem" and \
+                is_const(strip_wrappers(cnt.args[0].args[0]).args[1], "chol")
+            ok = square and count_ok
+            why = f"matrix reshaped to (n^2, n^2) with n the second argument: {square}; vector count is chol.shape[0]: {count_ok}"
     ctx.ob("CAP-1", "sampler.propagate_phaseless_ad_1: factorises the (norb^2 x norb^2) tensor into as many "
-           "vectors as the Hamiltonian carries", ok, "modified_cholesky(op.reshape(norb**2, norb**2), norb, chol.shape[0])",
-           fi)
+           "vectors as the Hamiltonian carries", ok, why, fi)
